@@ -42,6 +42,9 @@ def one_text(outs):
 
 @rule("R02.1", "C02", "opcode tables of ArithmeticOp/BitOp/CompareOp/BooleanOp/Ternary.il_exec = C11/RzIL oracle", min_instances=40)
 def r02_1(ctx):
+    from .c10 import floating_types_use_floating_operators
+
+    floating_types_use_floating_operators(ctx)  # float / double operands: the F-variant of every arithmetic and relational operator, INV(FEQ) for !=
     idx = get_index(ctx.env)
     pure = lambda: FlagV("VTGroup", frozenset(["PURE"]))
     for W in (32, 64):
